@@ -14,7 +14,7 @@ pub const DEF: PropDef = PropDef {
     run,
     replay,
     level: "exploration",
-    rule: "metamorphic cases = (pattern class, suite, backend, a set of (direction, nonce, payload length) items with nonces from boundary values {0,1,2^32-1,2^32,2^63,2^64-2} and random 64-bit values, and a call script that writes and reads the items in arbitrary order with repetitions); oracle: every write of an item yields the same bytes every time, every read under the item's nonce - into buffers of exactly the payload size, 1 / 7 / 15 / 16 / 17 / 100 spare bytes or 70 000 - returns the original payload every time, and the bytes equal the message a STATEFUL sender of an identically keyed session produces when positioned at that nonce. After a rekey - automatic, rekey_manually with BOTH keys in one call, one direction per call in opposite orders on the two sides, or automatic then manual - applied alike to the stateless objects and their stateful twins, the same equalities must hold. Thread stress: 8 threads share one &StatelessTransportState per endpoint and perform interleaved reads/writes; every result must equal the sequentially pre-computed one. Non-trivial = a script with at least one repeated or out-of-order read; distinct by (config, items, script)",
+    rule: "metamorphic cases = (pattern class, suite, backend - default, ring-first, and application-supplied cipher wrappers that rely on the provided Cipher::rekey or override it with their own derivation -, a set of (direction, nonce, payload length) items with nonces from boundary values {0,1,2^32-1,2^32,2^63,2^64-2} and random 64-bit values, and a call script that writes and reads the items in arbitrary order with repetitions); oracle: every write of an item yields the same bytes every time, every read under the item's nonce - into buffers of exactly the payload size, 1 / 7 / 15 / 16 / 17 / 100 spare bytes or 70 000 - returns the original payload every time, and the bytes equal the message a STATEFUL sender of an identically keyed session produces when positioned at that nonce. After a rekey - automatic, rekey_manually with BOTH keys in one call, one direction per call in opposite orders on the two sides, or automatic then manual - applied alike to the stateless objects and their stateful twins, the same equalities must hold. Thread stress: 8 threads share one &StatelessTransportState per endpoint and perform interleaved reads/writes; every result must equal the sequentially pre-computed one. Non-trivial = a script with at least one repeated or out-of-order read; distinct by (config, items, script)",
     technique: "metamorphic/differential property testing with proptest (stateless vs stateful sender; repeat/reorder invariance) + multi-threaded stress with a schedule-independent oracle",
     assumptions: &["thread interleavings are sampled by stress only: the harness does not own the scheduler, so a rare interleaving can be missed; the oracle is schedule-independent and cannot raise false alarms"],
     panic_is_violation: false,
@@ -44,7 +44,7 @@ fn spec_of(c: &Case) -> SessionSpec {
     let suites = all_suites();
     let suite = suites[c.suite_idx % suites.len()];
     let mut spec = SessionSpec::simple(HsName { pattern: c.pattern.clone(), psks: vec![] }, suite, c.seed);
-    if ring_covers(suite) {
+    if ring_covers(suite) || matches!(c.backend, Backend::PassThrough | Backend::OwnRekey) {
         spec.backend_i = c.backend;
         spec.backend_r = c.backend;
     }
@@ -320,7 +320,10 @@ pub fn run(ctx: &Ctx) {
     let pats = ["NN", "N", "XX", "K"];
     let mut k = 0usize;
     for suite_idx in 0..24 {
-        for backend in [Backend::Default, Backend::RingFirst] {
+        // ... and ciphers supplied by the application: a pass-through wrapper (trait's provided
+        // rekey) and one that overrides `Cipher::rekey` with its own derivation - stateless and
+        // stateful objects must ask the CIPHER for the new key in the same way
+        for backend in [Backend::Default, Backend::RingFirst, Backend::PassThrough, Backend::OwnRekey] {
             for pat in pats {
                 k += 1;
                 if ctx.tier.pick(k % 2 != 0, false) {
@@ -340,7 +343,7 @@ pub fn run(ctx: &Ctx) {
             let nonce = prop_oneof![2 => (0usize..NONCES.len()).prop_map(|i| NONCES[i]), 2 => any::<u64>().prop_map(|v| if v == u64::MAX { 7 } else { v }), 1 => 0u64..1000];
             let item = (any::<bool>(), nonce, prop_oneof![4 => 0usize..80, 1 => Just(65519usize), 1 => 0usize..5000, 1 => 5000usize..40000]).prop_map(|(r_to_i, nonce, plen)| Item { r_to_i, nonce, plen });
             (prop_oneof![3 => Just("NN"), 1 => Just("N"), 1 => Just("XX"), 1 => Just("K"), 1 => Just("IK")], 0usize..24, any::<bool>(), prop::collection::vec(item, 1..8), prop::collection::vec((any::<u8>(), any::<bool>()), 1..30), any::<u64>()).prop_map(
-                |(p, suite_idx, ring, items, script, seed)| Case { pattern: p.to_string(), suite_idx, backend: if ring { Backend::RingFirst } else { Backend::Default }, items, script, seed, threads: 1 },
+                |(p, suite_idx, ring, items, script, seed)| Case { pattern: p.to_string(), suite_idx, backend: if ring { Backend::RingFirst } else { [Backend::Default, Backend::Default, Backend::PassThrough, Backend::OwnRekey][(seed % 4) as usize] }, items, script, seed, threads: 1 },
             )
         },
         oracle,
